@@ -484,7 +484,7 @@ Proof.
   - destruct (entry_facts w u e I Ee) as (cd & Hc & H1 & H2 & H3 & H4 & H5 & H6 & H7 & H8).
     cbn [app] in H. fuel_step H. cbn [exec] in H. cbn [s_lock set_docs] in H. rewrite Hl0 in H. cbn [app l_url loc0] in H.
     apply run_nil in H. subst w'.
-    assert (Ew0 : w0 = set_open (upsert u (mkcdoc (cd_lang cd) (cd_text cd) (k :: cd_ign cd)) (w_open w)) w)
+    assert (Ew0 : w0 = set_open (upsert u (mkcdoc (cd_lang cd) (cd_text cd) (ins k (cd_ign cd))) (w_open w)) w)
       by (unfold w0; cbn [client_effect]; rewrite Hc; reflexivity).
     rewrite Ew0.
     set (w1 := set_docs _ _).
